@@ -1003,7 +1003,7 @@ pub fn must_separate(a: &str, b: &str) -> bool {
     (wordish(la) && wordish(fb)) || (opish(la) && opish(fb))
 }
 
-pub const SEPARATORS: &[&str] = &["", " ", "\n", "\t", "/*c*/", "//c\n", " \n  ", "//é√\n", "\r\n\u{b}\u{c}"];
+pub const SEPARATORS: &[&str] = &["", " ", "\n", "\t", "/*c*/", "//c\n", " \n  ", "//é√\n", "\r\n\u{b}\u{c}", "/** c **/"];
 
 /// Join the tokens; `gap(i)` gives the separator wanted before token i (i >= 1).
 pub fn layout(toks: &[Tok], gap: &dyn Fn(usize) -> &'static str) -> String {
